@@ -8,6 +8,7 @@ of the thrift compact reader: does the source contain the bounds check the model
     vlq_shift_checked    thrift.rs: read_vlq bounds `shift` (or uses checked_shl)
     fid_add_checked      thrift.rs: read_field_begin adds the field delta with wrapping_/checked_add
     list_len_checked     thrift.rs: read_list_set_begin compares the element count with the remaining input
+    page_copy_len_checked  column/page_reader.rs: src.len() != dest.len() tested before every dest.copy_from_slice(src)
 A fact that cannot be decided is emitted as None, so the theorems that name it stop checking."""
 import os, re
 from . import common
@@ -43,7 +44,8 @@ def _fn_body(src, name):
 
 def scan():
     t = {"footer_size": None, "min_file_size": None, "footer_len_checked": None, "setmap_implemented": None,
-         "double_checked": None, "vlq_shift_checked": None, "fid_add_checked": None, "list_len_checked": None}
+         "double_checked": None, "vlq_shift_checked": None, "fid_add_checked": None, "list_len_checked": None,
+         "page_copy_len_checked": None}
     md = _read("metadata/mod.rs")
     m = re.search(r"const\s+FOOTER_SIZE\s*:\s*usize\s*=\s*(\d+)\s*;", md)
     if m:
@@ -82,6 +84,14 @@ def scan():
     lb = _fn_body(th, "read_list_set_begin")
     if lb is not None and "element_count" in lb:
         t["list_len_checked"] = ("buf.len()" in lb) or ("remaining" in lb)
+    # column/page_reader.rs: is the length of the page body compared with the decompressed buffer before copy_from_slice?
+    pr = _read("column/page_reader.rs")
+    ncopy = len(re.findall(r"dest\.copy_from_slice\(src\)", pr))
+    if ncopy:
+        nchk = len(re.findall(r"src\.len\(\)\s*!=\s*dest\.len\(\)|dest\.len\(\)\s*!=\s*src\.len\(\)", pr))
+        # alternative shape of the repair: both header sizes converted with usize::try_from and compared once up front
+        conv = re.search(r"usize::try_from\(\s*metadata\.compressed_page_size", pr) and re.search(r"usize::try_from\(\s*metadata\.uncompressed_page_size", pr)
+        t["page_copy_len_checked"] = nchk >= ncopy or bool(conv)
     return t
 
 
@@ -100,7 +110,9 @@ def render(t):
         "Definition double_checked : option bool := %s." % ob(t["double_checked"]),
         "Definition vlq_shift_checked : option bool := %s." % ob(t["vlq_shift_checked"]),
         "Definition fid_add_checked : option bool := %s." % ob(t["fid_add_checked"]),
-        "Definition list_len_checked : option bool := %s." % ob(t["list_len_checked"]), ""])
+        "Definition list_len_checked : option bool := %s." % ob(t["list_len_checked"]),
+        "(* column/page_reader.rs: every `dest.copy_from_slice(src)` of an uncompressed page is guarded by a length test *)",
+        "Definition page_copy_len_checked : option bool := %s." % ob(t["page_copy_len_checked"]), ""])
 
 
 def regenerate():
